@@ -663,7 +663,19 @@ def do_op(s, mc, op, rng):
         mc.ping(wait_us=20000)
     elif op == "badip":
         other = rng.choice([u for u in range(16) if u != mc.userid])
-        if rng.random() < 0.5:
+        r_ = rng.random()
+        if r_ < 0.3:
             mc.ask(mc.ping_labels(userid=other), timeout_us=200000)
-        else:
+        elif r_ < 0.5:
             mc.ask(mc.data_labels(1, 0, 1, b"hello", userid=other), timeout_us=200000)
+        elif r_ < 0.62:
+            # the commands that change a session's settings, naming somebody else's slot (refused: one answer, not two)
+            mc.ask(proto.msg_switch_codec(mc.domain, other, rng.choice([5, 6, 26, 7]), mc.new_cmc()), timeout_us=200000)
+        elif r_ < 0.74:
+            mc.ask(proto.msg_option(mc.domain, other, rng.choice([b"t", b"s", b"l", b"i", b"r"]), mc.new_cmc()), timeout_us=200000)
+        elif r_ < 0.86:
+            mc.ask(proto.msg_setfrag(mc.domain, other, rng.choice([50, 200, 1200]), mc.new_cmc()), timeout_us=200000)
+        elif r_ < 0.93:
+            mc.ask(proto.msg_ip(mc.domain, other, mc.new_cmc()), timeout_us=200000)
+        else:
+            mc.ask(proto.msg_fragprobe(mc.domain, other, rng.choice([100, 500]), proto.BASE32.encode(bytes(rng.getrandbits(8) for _ in range(30)))), timeout_us=200000)
